@@ -224,28 +224,26 @@ pub fn h_w_float_8_id() { float_case::<8>(src::u64_(), 0x400921fb54442d18u64) }
 
 //@K name=k_size_vint unwind=10 props=C01,C09,C19
 pub fn h_size_vint() {
+    // The decode side (read_vint + EBMLSize::new give Known(n) for an encoding that is not all-ones) follows from
+    // k_lemma_unsigned_roundtrip + k_read_vint + k_ebml_size_new; calling the decoders here only makes CBMC slower.
     let n = src::u64_();
     let r = size_vint(n);
     let ok = match &r {
         Ok(out) => {
             let sl = out.len();
             1 <= sl && sl <= 8 && sp::is_enc_vint(out, n, sl) && !sp::is_all_ones(n, sl)
-                && (sl == 1 || !((n as u128) < sp::pow2(7 * (sl - 1)) - 1)) // shortest such width
-                && matches!(tools::read_vint(out), Ok(Some((v, l))) if v == n && l == sl)
-                && crate::tag_iterator_util::EBMLSize::new(n, sl) == Known(n as usize)
+                && (sl == 1 || n >= sp::pow2_64(7 * (sl - 1)) - 1) // shortest width that is not the reserved pattern
         }
         Err(ToolError::WriteVintOverflow(v)) => *v == n && n >= (1u64 << 56) - 1,
         _ => false,
     };
-    crate::vcheck!(ok, "size_vint(n): shortest vint of n that is not all-ones; the reader decodes it as Known(n); Err exactly for n >= 2^56-1");
+    crate::vcheck!(ok, "size_vint(n): the shortest vint of n that is not the reserved all-ones pattern, for every u64 n; Err exactly for n >= 2^56-1");
 }
 
 fn size_wl<const L: usize>(n: u64) -> bool {
     match size_vint_with_length::<L>(n) {
-        Ok(out) => sp::is_enc_vint(&out, n, L) && !sp::is_all_ones(n, L)
-            && matches!(tools::read_vint(&out), Ok(Some((v, l))) if v == n && l == L)
-            && crate::tag_iterator_util::EBMLSize::new(n, L) == Known(n as usize),
-        Err(ToolError::WriteVintOverflow(v)) => v == n && (n as u128) >= sp::pow2(7 * L) - 1,
+        Ok(out) => sp::is_enc_vint(&out, n, L) && !sp::is_all_ones(n, L),
+        Err(ToolError::WriteVintOverflow(v)) => v == n && n >= sp::pow2_64(7 * L) - 1,
         _ => false,
     }
 }
@@ -255,7 +253,18 @@ pub fn h_size_vint_with_length() {
     let w = src::usize_();
     src::assume(1 <= w && w <= 8);
     let ok = match w { 1 => size_wl::<1>(n), 2 => size_wl::<2>(n), 3 => size_wl::<3>(n), 4 => size_wl::<4>(n), 5 => size_wl::<5>(n), 6 => size_wl::<6>(n), 7 => size_wl::<7>(n), _ => size_wl::<8>(n) };
-    crate::vcheck!(ok, "size_vint_with_length::<w>(n): exactly width w, decodes as Known(n); Err exactly when n >= 2^(7w)-1 (not representable without the reserved pattern)");
+    crate::vcheck!(ok, "size_vint_with_length::<w>(n): exactly width w and not the reserved pattern; Err exactly when n >= 2^(7w)-1, for every u64 n and w in 1..=8");
 }
 
-
+//@K name=k_lemma_size_field_decodes unwind=10 props=C01,C09
+pub fn h_lemma_size_field_decodes() {
+    // lemma over the spec functions + the real decoders: any width-w encoding of n that is not all-ones decodes to Known(n)
+    let arr = sp::any_arr9();
+    let n = src::u64_();
+    let w = src::usize_();
+    src::assume(1 <= w && w <= 8);
+    src::assume(sp::is_enc_vint(&arr[..w], n, w) && !sp::is_all_ones(n, w));
+    let ok = matches!(tools::read_vint(&arr[..]), Ok(Some((v, l))) if v == n && l == w)
+        && crate::tag_iterator_util::EBMLSize::new(n, w) == Known(n as usize);
+    crate::vcheck!(ok, "lemma: a size field produced by the writer (width w, not all-ones) is read back as Known(n) by read_vint + EBMLSize::new");
+}
